@@ -65,6 +65,7 @@ type JVal struct {
 	Str    *string          `json:"str,omitempty"`
 	Alias  string           `json:"alias,omitempty"` // slice sharing the backing array of an earlier slice param
 	Off    int              `json:"off,omitempty"`
+	Func   bool             `json:"func,omitempty"` // a callback: a function that does nothing and returns zero values
 }
 
 // Stub describes an abstract BitSource from the model: RLen and RBit.
@@ -857,6 +858,16 @@ func (b *builder) build(j *JVal, t reflect.Type) reflect.Value {
 		return v
 	}
 	switch t.Kind() {
+	case reflect.Func:
+		if j.Func {
+			return reflect.MakeFunc(t, func(args []reflect.Value) []reflect.Value {
+				out := make([]reflect.Value, t.NumOut())
+				for i := range out {
+					out[i] = reflect.Zero(t.Out(i))
+				}
+				return out
+			})
+		}
 	case reflect.Bool:
 		if j.Bool != nil {
 			v.SetBool(*j.Bool)
